@@ -20,7 +20,6 @@ import (
 	"errors"
 	"flag"
 	"fmt"
-	"io"
 	"os"
 	"os/exec"
 	"path/filepath"
@@ -331,12 +330,12 @@ func (c *ctl) newDel(coll int) *thread {
 }
 
 // wait until thread t parks, returns, or is stably blocked
-func (c *ctl) await(t *thread, timeout time.Duration) string {
+func (c *ctl) await(t *thread, timeout time.Duration, ignore ...string) string {
 	deadline := time.Now().Add(timeout)
 	last, cnt := "", 0
 	sleep := 50 * time.Microsecond
 	// most steps finish within microseconds: spin before looking at goroutine dumps
-	for i := 0; i < 3000; i++ {
+	for i := 0; i < 600; i++ {
 		c.mu.Lock()
 		parked, at, done, res := t.parked, t.at, t.done, t.result
 		c.mu.Unlock()
@@ -367,7 +366,7 @@ func (c *ctl) await(t *thread, timeout time.Duration) string {
 				c.mu.Unlock()
 				return "ret_exit"
 			}
-		} else if k := blockedKind(g); k != "" {
+		} else if k := blockedKind(g); k != "" && !(len(ignore) > 0 && ignore[0] == k) {
 			if k == last {
 				cnt++
 			} else {
@@ -620,7 +619,9 @@ func runSchedule(line string, base string, idx int, backups bool) (string, []vh.
 				}
 				t.wake = false
 				tm.Reset(0)
-				st = c.await(t, stepTimeout)
+				// the runtime delivers the expired timer asynchronously: still sitting in the select for a
+				// moment is not "blocked"
+				st = c.await(t, stepTimeout, "select")
 				break
 			}
 			if t.wake {
@@ -816,6 +817,37 @@ func worker() {
 	}
 }
 
+// tailBuf keeps the first lines of what a child wrote to stderr after its last complete log line
+type tailBuf struct {
+	mu sync.Mutex
+	b  []byte
+}
+
+func (t *tailBuf) Write(p []byte) (int, error) {
+	t.mu.Lock()
+	defer t.mu.Unlock()
+	if len(t.b) < 1<<16 {
+		t.b = append(t.b, p...)
+	}
+	return len(p), nil
+}
+
+func (t *tailBuf) head() string {
+	t.mu.Lock()
+	defer t.mu.Unlock()
+	var keep []string
+	for _, l := range strings.Split(string(t.b), "\n") {
+		if strings.HasPrefix(l, "{") || strings.TrimSpace(l) == "" {
+			continue // zerolog lines
+		}
+		keep = append(keep, l)
+		if len(keep) >= 6 {
+			break
+		}
+	}
+	return strings.Join(keep, " | ")
+}
+
 // run the schedules in child processes (several in parallel); a child that stops answering is
 // killed and the schedule it was working on is reported as a hang
 func runForced(lines []string, seed uint64, par int) ([]string, []vh.OracleFailure, int) {
@@ -840,7 +872,8 @@ func runForced(lines []string, seed uint64, par int) ([]string, []vh.OracleFailu
 				cmd := exec.Command(self, "-worker")
 				stdin, _ := cmd.StdinPipe()
 				stdout, _ := cmd.StdoutPipe()
-				cmd.Stderr = io.Discard
+				var errBuf tailBuf
+				cmd.Stderr = &errBuf
 				if err := cmd.Start(); err != nil {
 					panic(err)
 				}
@@ -872,7 +905,8 @@ func runForced(lines []string, seed uint64, par int) ([]string, []vh.OracleFailu
 						mu.Lock()
 						if !ok {
 							traces[i] = "CRASH"
-							fails = append(fails, vh.OracleFailure{Signature: "crash", What: "the harness child process died while running this schedule", Replay: lines[i]})
+							cmd.Wait()
+							fails = append(fails, vh.OracleFailure{Signature: "crash", What: "the process died while running this schedule: " + errBuf.head(), Replay: lines[i]})
 							alive = false
 							restarts++
 						} else {
@@ -1044,8 +1078,9 @@ func runStress(seed uint64, dur time.Duration) (stressReport, []vh.OracleFailure
 	for _, to := range []int{0, 1} {
 		cmd := exec.Command(self, "-stressworker", "-seed", fmt.Sprint(seed), "-dur", fmt.Sprint(int(dur/time.Millisecond/2)), "-timeout", fmt.Sprint(to))
 		var outb bytes.Buffer
+		var errBuf tailBuf
 		cmd.Stdout = &outb
-		cmd.Stderr = io.Discard
+		cmd.Stderr = &errBuf
 		if err := cmd.Start(); err != nil {
 			panic(err)
 		}
@@ -1062,7 +1097,7 @@ func runStress(seed uint64, dur time.Duration) (stressReport, []vh.OracleFailure
 		var rep stressReport
 		lines := strings.Split(strings.TrimSpace(outb.String()), "\n")
 		if err := json.Unmarshal([]byte(lines[len(lines)-1]), &rep); err != nil {
-			fails = append(fails, vh.OracleFailure{Signature: "crash", What: "unforced stress: child process died: " + outb.String(), Replay: replay})
+			fails = append(fails, vh.OracleFailure{Signature: "crash", What: "unforced stress: the process died: " + errBuf.head(), Replay: replay})
 			continue
 		}
 		total.Ops += rep.Ops
@@ -1150,9 +1185,16 @@ func main() {
 	forcedS := time.Since(t0).Seconds()
 	blocked, longest := 0, 0
 	for i, l := range lines {
-		kind := "schedule"
-		if strings.Contains(traces[i], "=blocked_") {
-			kind = "schedule-with-blocking"
+		flags := ""
+		for _, fl := range [][2]string{{"=blocked_rlock", "R"}, {"=blocked_wlock", "W"}, {"=ret_err", "E"}, {" nD", "D"}, {" f", "T"}, {"dl=1", "X"}} {
+			if strings.Contains(traces[i], fl[0]) || strings.Contains(l, fl[0]) {
+				flags += fl[1]
+			}
+		}
+		// R: an RLock queued behind a writer, W: a Lock waited for readers, E: a request got the clean
+		// error, D: a deletion ran, T: an idle timer fired, X: deadlock
+		kind := "sched[" + flags + "]"
+		if strings.Contains(traces[i], "=blocked_rlock") || strings.Contains(traces[i], "=blocked_wlock") {
 			blocked++
 		}
 		if n := len(strings.Fields(l)); n > longest {
@@ -1160,7 +1202,7 @@ func main() {
 		}
 		o.Emit(kind, l, traces[i], true)
 	}
-	extra := map[string]any{"rule": "distinct schedules (act sequences) driven through the real ShardManager and compared step by step with the model", "forced_seconds": forcedS, "child_restarts": restarts, "longest_schedule_acts": longest - 2}
+	extra := map[string]any{"rule": "distinct schedules (act sequences) driven through the real ShardManager and compared step by step with the model", "forced_seconds": forcedS, "child_restarts": restarts, "longest_schedule_acts": longest - 2, "schedules_with_lock_waits": blocked}
 	if *stress {
 		rep, sf := runStress(*seed, time.Duration(*dur)*time.Millisecond)
 		fails = append(fails, sf...)
